@@ -35,6 +35,7 @@ const (
 	ekTwoInputsOneSig    // two transactions with different input addresses, signed by the first one's key only
 	ekTwoInputsTwoSigs   // the same, signed by both keys (still not a legal batch: one input address per batch)
 	ekMalleatedTwin      // an RCD-e signed transfer followed by a third party's copy of it with the last signature byte altered
+	ekCorruptTwin        // an ed25519 signed transfer followed by a copy whose signature bytes were altered (no longer verifies)
 	ekKinds
 )
 
@@ -313,6 +314,21 @@ func VerifTxBlock() {
 		}
 		h := vrtHash(fresh)
 		fresh++
+		if kind == ekCorruptTwin {
+			// a genuine entry, then the same salt/RCD/content with a destroyed signature under a new
+			// hash: whatever the daemon remembers about the first, the second is not authorised
+			e1, sp1 := vrtMakeEntry(ekTransfer, h, blockTime, height, vrt.URange("amt", 0, vrtMaxBal/4), B)
+			e2 := e1
+			vrt.MalleateSig(&e2)
+			e2.Hash = vrtHash(fresh)
+			fresh++
+			vrt.SealEntry(&e2)
+			sp2 := sp1
+			sp2.kind, sp2.hash, sp2.valid = ekCorruptTwin, e2.Hash, false
+			entries = append(entries, e1, e2)
+			specs = append(specs, sp1, sp2)
+			continue
+		}
 		if kind == ekMalleatedTwin {
 			// the holder signs ONE transfer; a third party re-publishes it with the signature's last
 			// byte changed (new bytes, new entry hash). One authorisation may take effect once.
